@@ -12,6 +12,9 @@ import Driver.Parse
 import Driver.Race
 import Driver.Encode
 import Driver.Sim
+import Driver.Modes
+import Driver.Text
+import Driver.Pipe
 /-
 Line-protocol driver: one case per line, first token selects the engine, one reply line per case.
 Stateless across lines (a line is a complete case = a replay).  Core-only imports so that it links.
@@ -41,6 +44,10 @@ def dispatch (env : Env) (eng rest : String) : String :=
   | "enc" => Encode.runEnc env rest
   | "acs" => Encode.runAcs env rest
   | "sim" => Sim.run env rest
+  | "modes" => Modes.run env rest
+  | "text" => Text.run env rest
+  | "pipe" => Pipe.run env rest
+  | "pipetrace" => Pipe.runTrace env rest
   | _ => "bad-engine"
 
 def handle (env : Env) (line : String) : String :=
